@@ -71,6 +71,7 @@ PLAN = {
 }
 WALL_CAP = {"quick": 900, "thorough": 3300}
 FORK_EACH = False
+FUZZ_TARGETS = ["fuzz_json"]
 EXPLANATION = ("census keys: part:* (output/input/concat/truncate/corrupt/pin/pout), p:* features of tier-P cases (via:str/bytes/file/path, differential = compared with ak.from_iter, roundtrip_*), verdict:* (valid/invalid/unasserted per judged text), has:* features of the "
                "text (records, unions = heterogeneous arrays, escapes, surrogate pairs, non-ASCII, int64/double extremes, deep nesting), out:* features of the layout")
 
